@@ -196,6 +196,9 @@ func vfCorpusC01() []*vfWorldCase {
 
 func vfGenC03(r *vfRand, id int) *vfWorldCase {
 	cfg := vfWorldCfg{PKCE: r.chance(2, 3), ForceHTTPS: r.chance(1, 2), EndSession: true, GraceSec: 60}
+	if r.chance(1, 4) {
+		cfg.ChallengeMethods = [][]string{{"plain"}, {"S256"}, {"plain", "S256"}, {}}[r.intn(4)]
+	}
 	nb := 1 + r.intn(3)
 	cs := &vfWorldCase{ID: id, Kind: "login-binding", Script: vfScript{Cfg: cfg, Browsers: nb}}
 	var acts []vfAction
@@ -249,7 +252,13 @@ func vfCorpusC03() []*vfWorldCase {
 		{Kind: "callback", Browser: 0, Script: ok},
 		{Kind: "callback", Browser: 0, CodeMode: "reused", Script: ok},
 		vfGated(1, 0, "/c", 1), {Kind: "callback", Browser: 1, StateMode: "foreign", From: 0, CodeMode: "garbage", Script: ok}}}}
-	return []*vfWorldCase{replay}
+	// PKCE enabled against providers that advertise which challenge methods they support: whatever they say,
+	// a login that completes was bound to its own verifier
+	adv := func(methods []string) *vfWorldCase {
+		return &vfWorldCase{Kind: "corpus", Script: vfScript{Cfg: vfWorldCfg{PKCE: true, EndSession: true, GraceSec: 60, ChallengeMethods: methods}, Browsers: 1,
+			Actions: append(vfLogin(0, 0, "/a", ok), vfGated(0, 0, "/a", 1))}}
+	}
+	return []*vfWorldCase{replay, adv([]string{"plain"}), adv([]string{"S256", "plain"}), adv([]string{})}
 }
 
 // ---------------------------------------------------------------- C04: an established session keeps working
@@ -545,7 +554,7 @@ func vfGenC08(r *vfRand, id int) *vfWorldCase {
 		}
 		acts = append(acts, vfReqAct(0, 0, vfPick(r, "GET", "GET", "POST"), "/app", 1, func(q *vfReq) {
 			q.AcceptJS = r.chance(1, 3)
-			q.Script = &vfTokenScript{Kind: kind, Spec: spec, Rotate: r.chance(1, 2), SameToken: r.chance(1, 8)}
+			q.Script = &vfTokenScript{Kind: kind, Spec: spec, Rotate: r.chance(1, 2), SameToken: r.chance(1, 8), ForgeLast: kind == "ok" && r.chance(1, 6)}
 		}))
 	}
 	cs.Script.Actions = acts
@@ -563,8 +572,18 @@ func vfCorpusC08() []*vfWorldCase {
 			}),
 			vfGated(0, 0, "/app", 1)}}}
 	}
+	// a genuine refresh, then a refresh answered with that token's header and SIGNATURE around another identity
+	near := func() *vfTokSpec { return vfPlainTok("alice@example.com", 30) }
+	forged := &vfWorldCase{Kind: "corpus", Script: vfScript{Cfg: cfg, Browsers: 1, Actions: []vfAction{
+		{Kind: "mint", Browser: 0, Mint: &vfMintSpec{Auth: true, Email: "alice@example.com", Tok: vfTokForState(nil, "near"), RefreshLen: 24}},
+		vfReqAct(0, 0, "GET", "/app", 1, func(q *vfReq) { q.Script = &vfTokenScript{Kind: "ok", Spec: near(), Rotate: true} }),
+		vfReqAct(0, 0, "GET", "/app", 1, func(q *vfReq) {
+			q.AcceptJS = true
+			q.Script = &vfTokenScript{Kind: "ok", Spec: vfPlainTok("admin@example.com", 3600), Rotate: true, ForgeLast: true}
+		}),
+		vfGated(0, 0, "/app", 1)}}}
 	return []*vfWorldCase{mk("ok", false), mk("invalid_grant", false), mk("invalid_grant", true), mk("server_error", true),
-		mk("drop", false), mk("drop", true)}
+		mk("drop", false), mk("drop", true), forged}
 }
 
 // ---------------------------------------------------------------- C09 / C18: every cookie of every flow (flags)
@@ -578,6 +597,13 @@ func vfGenC18(r *vfRand, id int) *vfWorldCase {
 	// long request URIs at the start of a login, around the length where the main cookie is largest
 	n := []int{10, 900, 1000, 1020, 1024, 1025, 1030, 1500, 1900, 1950, 1990, 2100, 4000}[r.intn(13)]
 	cs.Script.Actions = append([]vfAction{vfGated(0, 0, "/long?"+strings.Repeat("a", n), 1)}, cs.Script.Actions...)
+	if r.chance(1, 3) { // the browser lost one chunk cookie in the middle: the cookies behind it are orphans when the session is cleared
+		big := vfOkScript(vfSizedTok(r, 6000, true))
+		big.RefreshLen = 5200
+		cs.Script.Actions = append(cs.Script.Actions, vfLogin(0, 0, "/app", big)...)
+		cs.Script.Actions = append(cs.Script.Actions, vfAction{Kind: "tamper", Browser: 0, Tamper: "drop", Name: vfPick(r, "a1", "a0", "r1", "r0")},
+			vfGated(0, 0, "/app", 1))
+	}
 	cs.Script.Actions = append(cs.Script.Actions, vfLogoutAct(0, 0))
 	if r.chance(1, 3) { // a session that is seconds, hours or almost a day old is written again (expired token, rejected refresh token)
 		age := int64([]int{2, 90, 3600, 40000, 86000}[r.intn(5)])
@@ -602,6 +628,12 @@ func vfCorpusC18() []*vfWorldCase {
 	acts := append(vfLogin(0, 0, "/app", sc), vfGated(0, 0, "/app", 1), vfLogoutAct(0, 0))
 	out = append(out, &vfWorldCase{Kind: "corpus", Script: vfScript{Cfg: vfWorldCfg{ForceHTTPS: true, EndSession: true, GraceSec: 7200, ClientProto: "http"},
 		Browsers: 1, Actions: acts}})
+	// a chunk cookie in the middle is gone (the browser dropped it): logout and the next login with the orphans in the jar
+	sc2 := vfOkScript(vfSizedTok(nil, 9000, true))
+	sc2.RefreshLen = 5200
+	acts2 := append(vfLogin(0, 0, "/app", sc2), vfAction{Kind: "tamper", Browser: 0, Tamper: "drop", Name: "a1"}, vfGated(0, 0, "/app/deep/page", 1), vfLogoutAct(0, 0))
+	acts2 = append(acts2, vfLogin(0, 0, "/app", sc2)...)
+	out = append(out, &vfWorldCase{Kind: "corpus", Script: vfScript{Cfg: vfWorldCfg{EndSession: true, GraceSec: 60}, Browsers: 1, Actions: acts2}})
 	return out
 }
 
@@ -884,10 +916,15 @@ func vfCorpusC15() []*vfWorldCase {
 		q.Headers = map[string]string{"X-Forwarded-Server": "evil.example.net"}
 	})
 	acts2 := []vfAction{lo("evil.example", ""), lo("", ""), lo("tenant-b.example.net", "https"), lo("", ""), srv}
+	// two middleware instances for two tenants of one provider host: each sends its users to ITS tenant's endpoints
+	tenants := []vfAction{vfGated(0, 0, "/a", 1), {Kind: "newinst", Slot: 1, Realm: "/realms/b"}, vfGated(0, 1, "/b", 1), vfLogoutAct(0, 1),
+		vfGated(0, 0, "/a2", 1), vfLogoutAct(0, 0), {Kind: "newinst", Slot: 0}, vfGated(0, 0, "/a3", 1), vfGated(0, 1, "/b2", 1)}
 	return []*vfWorldCase{
 		{Kind: "corpus", Script: vfScript{Cfg: vfWorldCfg{EndSession: true, GraceSec: 60}, Browsers: 1, Actions: acts}},
 		{Kind: "corpus", Script: vfScript{Cfg: vfWorldCfg{EndSession: false, GraceSec: 60, PostLogout: "/bye"}, Browsers: 1, Actions: acts2}},
 		{Kind: "corpus", Script: vfScript{Cfg: vfWorldCfg{EndSession: true, GraceSec: 60}, Browsers: 1, Actions: acts2}},
+		{Kind: "corpus", Script: vfScript{Cfg: vfWorldCfg{EndSession: true, GraceSec: 60}, Browsers: 1, Actions: tenants}},
+		{Kind: "corpus", Script: vfScript{Cfg: vfWorldCfg{EndSession: false, GraceSec: 60, PKCE: true}, Browsers: 1, Actions: tenants}},
 	}
 }
 
@@ -920,6 +957,12 @@ func vfGenC16(r *vfRand, id int) *vfWorldCase {
 		acts = append(acts, vfGated(0, 0, tgt, 1), vfAction{Kind: "authorize", Browser: 0})
 	}
 	for i := 1 + r.intn(4); i > 0; i-- {
+		if i > 1 && len(acts) > 0 && acts[len(acts)-1].Kind == "callback" && r.chance(1, 3) { // the previous failing callback again, in the OTHER format
+			again := acts[len(acts)-1]
+			again.AcceptJS = !again.AcceptJS
+			acts = append(acts, again)
+			continue
+		}
 		a := vfAction{Kind: "callback", Browser: 0, AcceptJS: r.chance(1, 2), StateMode: vfPick(r, "own", "garbage", "absent"), CodeMode: vfPick(r, "own", "garbage", "absent"),
 			Script: &vfTokenScript{Kind: vfPick(r, "ok", "invalid_grant"), Spec: vfPlainTok(vfPick(r, "u@example.com", "u@evil.com"), 3600), NonceMode: vfPick(r, "", "other")}}
 		switch r.intn(4) {
@@ -955,7 +998,15 @@ func vfCorpusC16() []*vfWorldCase {
 	linked := &vfWorldCase{Kind: "corpus", Script: vfScript{Cfg: vfWorldCfg{EndSession: true, GraceSec: 60}, Browsers: 1, Actions: []vfAction{
 		{Kind: "callback", Browser: 0, ErrParam: "access_denied", ErrDesc: "log out at " + vfLogoutPath + "<img src=x onerror=alert(1)>", CodeMode: "absent", StateMode: "absent"},
 		{Kind: "callback", Browser: 0, ErrParam: "access_denied", ErrDesc: vfCallbackPath + "\"><script>alert(2)</script>", CodeMode: "absent", StateMode: "absent"}}}}
-	return []*vfWorldCase{mk(false), mk(true), stored, linked}
+	both := func(first bool) *vfWorldCase { // the same failing callback as a browser and as a JSON client, on ONE instance, in both orders
+		cb := func(js bool) vfAction {
+			return vfAction{Kind: "callback", Browser: 0, AcceptJS: js, ErrParam: "access_denied", ErrDesc: "<b>denied</b>", CodeMode: "absent", StateMode: "absent"}
+		}
+		return &vfWorldCase{Kind: "corpus", Script: vfScript{Cfg: vfWorldCfg{EndSession: true, GraceSec: 60}, Browsers: 1,
+			Actions: []vfAction{cb(first), cb(!first), cb(first), {Kind: "callback", Browser: 0, AcceptJS: !first, CodeMode: "garbage", StateMode: "garbage"},
+				{Kind: "callback", Browser: 0, AcceptJS: first, CodeMode: "garbage", StateMode: "garbage"}}}}
+	}
+	return []*vfWorldCase{mk(false), mk(true), stored, linked, both(false), both(true)}
 }
 
 // ---------------------------------------------------------------- C17: bad client state
@@ -1009,6 +1060,25 @@ func vfGenC17(r *vfRand, id int) *vfWorldCase {
 	heal.RefreshLen = []int{0, 2600, 5200}[r.intn(3)]
 	acts = append(acts, vfLogin(0, 0, "/healed", heal)...)
 	acts = append(acts, vfReqAct(0, 0, "GET", "/healed", 4, nil))
+	// "any header values": the headers the middleware derives scheme and host from, with values no URL parser accepts,
+	// on every kind of request of the logged-in browser (the logout builds URLs from them)
+	if r.chance(1, 2) {
+		badHost := []string{"bad host", "%", "a.example:80a", "[::1", "exa mple.com", "host\twith\ttabs", "a/b", "@", ":", strings.Repeat("h", 300) + ".example"}
+		badProto := []string{"ht tp", "%zz", "", "https, http", "javascript"}
+		for _, target := range []string{"/healed", vfLogoutPath, vfCallbackPath + "?state=x&code=y", "/after"} {
+			target := target
+			tag := 1
+			if target == vfLogoutPath {
+				tag = 3
+			}
+			acts = append(acts, vfReqAct(0, 0, "GET", target, tag, func(q *vfReq) {
+				q.XFHost = badHost[r.intn(len(badHost))]
+				if r.chance(1, 2) {
+					q.XFProto = badProto[r.intn(len(badProto))]
+				}
+			}))
+		}
+	}
 	cs.Script.Actions = acts
 	return cs
 }
@@ -1042,7 +1112,15 @@ func vfCorpusC17() []*vfWorldCase {
 			vfAction{Kind: "tamper", Browser: 0, Tamper: "huge", Name: name}, vfGated(0, 0, "/app", 1), vfReqAct(0, 0, "GET", vfCallbackPath+"?code=x&state=y", 2, nil))
 		return &vfWorldCase{Kind: "corpus", Script: vfScript{Cfg: cfg, Browsers: 1, Actions: append(acts, heal...)}}
 	}
+	hdr := func(host, proto string) *vfWorldCase {
+		acts := append(vfLogin(0, 0, "/app", vfOkScript(vfPlainTok("user@example.com", 3600))),
+			vfReqAct(0, 0, "GET", "/app", 1, func(q *vfReq) { q.XFHost, q.XFProto = host, proto }),
+			vfReqAct(0, 0, "GET", vfLogoutPath, 3, func(q *vfReq) { q.XFHost, q.XFProto = host, proto }),
+			vfReqAct(0, 0, "GET", "/app", 1, func(q *vfReq) { q.XFHost, q.XFProto = host, proto }))
+		return &vfWorldCase{Kind: "corpus", Script: vfScript{Cfg: cfg, Browsers: 1, Actions: acts}}
+	}
 	return []*vfWorldCase{junk("m"), junk("a"), junk("r"), huge("m"), huge("a"), huge("r"), huge("a0"), old, long,
+		hdr("bad host", ""), hdr("%", "ht tp"), hdr("a.example:80a", "https"), hdr("[::1", ""),
 		chunkHeal(6000, 3000, "flip", "a0"), chunkHeal(6000, 3000, "junk", "a1"), chunkHeal(9000, 4400, "truncate", "a0"),
 		chunkHeal(3000, 6000, "junk", "a0"), chunkHeal(6000, 6000, "junk", "a2")}
 }
